@@ -1,5 +1,7 @@
 import Driver.Proto
 import Gotree.Spec.C05
+import Gotree.Model.C05Cli
+import Gotree.Model.C05Orient
 
 namespace Gotree.Driver.C05
 open Gotree Gotree.Driver Gotree.C05
@@ -44,7 +46,7 @@ def judge (c : Case) : Verdict :=
   let tags := c.tags ++ tagIf uniq "uniq" ++ tagIf c.t.rooted "rooted" ++ tagIf (c.t.kids.length == 1) "roottip" ++
     tagIf (c.t.kids.length > 3) "multiroot" ++ tagIf (!c.t.binary) "multif" ++
     tagIf (c.t.edges.any (·.len == 0)) "zerolen" ++ tagIf (c.t.edges.any (·.len == NIL)) "nolen" ++
-    tagIf c.small "small" ++ tagIf (lensOK c.t) "hyp-lensok" ++ tagIf (supsOK c.t) "hyp-supsok" ++ tagIf (keysOK c.t) "hyp-keysok" ++ tagIf (allLens c.t) "hyp-alllens" ++ tagIf (branchesDistinct c.t) "hyp-branchesdistinct" ++ ["model-" ++ c.model.cls]
+    tagIf c.small "small" ++ tagIf (!c.t.noSingle) "singles" ++ tagIf c.t.noSingle "hyp-nosingle" ++ tagIf (lensOK c.t) "hyp-lensok" ++ tagIf (supsOK c.t) "hyp-supsok" ++ tagIf (keysOK c.t) "hyp-keysok" ++ tagIf (allLens c.t) "hyp-alllens" ++ tagIf (branchesDistinct c.t) "hyp-branchesdistinct" ++ ["model-" ++ c.model.cls]
   if !uniq then ⟨.pass, "skip-dupnames" :: tags, ""⟩ else
   if startsWith c.outcome "malformed" then ⟨.oracle, tags, "heap malformed after the operation: " ++ c.outcome⟩ else
   if startsWith c.outcome "panic" then
@@ -54,7 +56,11 @@ def judge (c : Case) : Verdict :=
        | _ => ⟨.tie, tags, "implementation panics, model says " ++ c.model.cls⟩)
     else ⟨.oracle, tags, c.outcome⟩
   else if c.outcome == "err" then
-    if c.small then ⟨.pass, "refused" :: tags, ""⟩ else
+    if c.small then
+      (match c.model with
+       | .err _ => ⟨.pass, "refused" :: tags, ""⟩
+       | m => ⟨.tie, tags, "implementation refuses (tree outside the quantifier), model says " ++ m.cls⟩)
+    else
     match c.errOracle with
     | some msg => ⟨.oracle, tags, msg⟩
     | none =>
@@ -67,7 +73,14 @@ def judge (c : Case) : Verdict :=
     | some u =>
       let changed := c.after != c.t.dump
       let tags := tags ++ tagIf changed "nontrivial"
-      if c.small then ⟨.pass, tags, ""⟩ else
+      if c.small then
+        -- outside the property's quantifier (< 3 tips): no oracle, but the model must still follow the code
+        (match c.model with
+         | .ok m =>
+           if obs c.root m != obs c.root u then ⟨.tie, tags, "model obs " ++ obs c.root m⟩
+           else ⟨.pass, tags ++ tagIf (m.dump == c.after) "exact" ++ tagIf (m.dump != c.after) "inexact", ""⟩
+         | m => ⟨.tie, tags, "implementation succeeds (tree outside the quantifier), model says " ++ m.cls⟩)
+      else
       match c.okOracle u with
       | some msg => ⟨.oracle, tags, msg⟩
       | none =>
@@ -111,7 +124,9 @@ def handle (op : String) (f : List String) : Verdict :=
     | some t =>
       judge { t := t, model := .ok (unroot t), outcome := outcome, after := after, root := false,
               small := t.tipNames.length < 3, tags := ["op-unroot"],
-              okOracle := (fun u => if u.rooted && u.tipNames.length ≥ 3 then some "still rooted" else presMsg t u),
+              -- (a root child with exactly two neighbours becomes a root with two neighbours again: only
+              --  without such nodes must the result have a root of degree ≠ 2)
+              okOracle := (fun u => if u.rooted && t.noSingle && u.tipNames.length ≥ 3 then some "still rooted" else presMsg t u),
               errOracle := some "unroot failed" }
     | none => bad "C05.unroot fields"
   | "outgroup", [dump, rms, sts, ss, kind, outcome, after] =>
@@ -133,7 +148,10 @@ def handle (op : String) (f : List String) : Verdict :=
                 else match presMsg t u with
                   | some m => some m
                   | none =>
-                    if side then (if cladeOK t S u then none else some "outgroup is not a root clade cut at half the branch")
+                    if side then
+                      (if branchesDistinct t then
+                         (if cladeOK t S u then none else some "outgroup is not a root clade cut at half the branch")
+                       else if cladeWeak t S u then none else some "outgroup is not a root clade on two equal branches")
                     else (if insideOK t S u then none else some "outgroup not inside one root clade")),
               errOracle := none }
     | _, _, _, _ => bad "C05.outgroup fields"
@@ -170,6 +188,60 @@ def handle (op : String) (f : List String) : Verdict :=
               small := t.tipNames.length < 3, tags := ["op-sort"],
               okOracle := (fun u => presMsg t u), errOracle := some "sort failed" }
     | none => bad "C05.sort fields"
+  | "rerootfirst", [dump, outcome, after] =>
+    match T.undump dump with
+    | some t =>
+      let has3 := (firstDeg3 true t).isSome
+      judge { t := t, model := rerootFirst t, outcome := outcome, after := after, root := true,
+              small := t.tipNames.length < 3, tags := ["op-rerootfirst"] ++ tagIf has3 "has-deg3",
+              okOracle := (fun u => if u.kids.length != 3 then some "the new root does not have three neighbours" else presMsg t u),
+              errOracle := if has3 then some "a node with three neighbours exists" else none }
+    | none => bad "C05.rerootfirst fields"
+  | "orient", [dump, ps, f1, revs, f2, pars, pars0] =>
+    match T.undump dump, parseNatList ps, parseIntList revs, parseStrList pars, parseStrList pars0 with
+    | some t, some path, some rev, some parents, some parents0 =>
+      let o1 := setRootO (orient t) path none
+      let r := o1.reorder
+      let showF (l : List Bool) : String := String.join (l.map fun b => if b then "1" else "0")
+      let tags := ["op-orient"] ++ tagIf (!rev.isEmpty) "nontrivial" ++ tagIf (path.length ≥ 2) "deep"
+      -- oracle (C03's clause, observed here): after ReorderEdges every branch points away from the root and
+      -- Parent() is the parent for every node but the root
+      if f2.toList.any (· != '1') then ⟨.oracle, tags, "a branch does not point away from the root after ReorderEdges"⟩ else
+      if parents.head? != some "none" || (parents.drop 1).any (· != "parent") then
+        ⟨.oracle, tags, "Parent()/ParentEdge() do not answer the parent after ReorderEdges"⟩ else
+      if o1.parents none != parents0 then ⟨.tie, tags, "Parent() after SetRoot, before ReorderEdges: model " ++ showStrList (o1.parents none)⟩ else
+      if showF o1.flags != f1 then ⟨.tie, tags, "orientation after SetRoot: model " ++ showF o1.flags⟩ else
+      if r.2.map (·.id) != rev then ⟨.tie, tags, "reversed branches: model " ++ toString (r.2.map (·.id))⟩ else
+      if showF r.1.flags != f2 || r.1.parents none != parents then ⟨.tie, tags, "after ReorderEdges the model differs"⟩ else
+      ⟨.pass, tags, ""⟩
+    | _, _, _, _, _ => bad "C05.orient fields"
+  | "cli", [kind, dumps, rms, sts, argss, files, _seed, ds, cls, outs] =>
+    let k? : Option CliKind := match kind with
+      | "outgroup-args" => some .outgroup | "outgroup-file" => some .outgroup | "outgroup-none" => some .outgroup | "outgroup-stdin" => some .outgroup
+      | "midpoint" => some .midpoint | "unroot" => some .unroot
+      | "rotate-rand" => some .rotateRand | "rotate-sort" => some .rotateSort | _ => none
+    match k?, (splitTerm "|" dumps).mapM T.undump, parseBool rms, parseBool sts, parseStrList argss,
+        (if files == "-" then some none else (parseStrList (dropFirst files)).map some), parseNatList ds,
+        (splitTerm "|" outs).mapM T.undump with
+    | some k, some trees, some rm, some strict, some args, some file, some draws, some us =>
+      let (ms, mcls) := cliRun k rm strict file args draws trees
+      let tags := ["cli", "cli-" ++ kind] ++ tagIf (trees.length > 1) "cli-multi" ++ tagIf (!us.isEmpty) "nontrivial" ++
+        tagIf (trees.all (·.uniqueTips)) "uniq" ++ ["cli-" ++ cls]
+      if !(trees.all fun t => C05.uniq t) then ⟨.pass, "skip-dupnames" :: tags, ""⟩ else
+      if cls == "timeout" || cls == "badoutput" then ⟨.oracle, tags, "command " ++ cls⟩ else
+      if cls == "panic" && trees.all (fun t => t.tipNames.length ≥ 3) then ⟨.oracle, tags, "command panics"⟩ else
+      -- oracle: every tree written is the corresponding input tree (when nothing is removed)
+      let bad := (List.zip trees us).filter fun p => !(k == .outgroup && rm) && p.1.tipNames.length ≥ 3 && !(preserved p.1 p.2)
+      if !bad.isEmpty then ⟨.oracle, tags, "a written tree is not the input tree"⟩ else
+      let tips := match cliTips file args with | .ok l => l | _ => []
+      if k == .outgroup && strict && (List.zip trees us).any (fun p => p.1.tipNames.length ≥ 3 && !(isSide p.1 tips)) then
+        ⟨.oracle, tags, "non-monophyletic outgroup accepted in strict mode"⟩ else
+      if mcls != cls then ⟨.tie, tags, "command ends with " ++ cls ++ ", model says " ++ mcls⟩ else
+      if ms.length != us.length then ⟨.tie, tags, "command wrote " ++ toString us.length ++ " trees, model " ++ toString ms.length⟩ else
+      let root := k != .midpoint
+      if (List.zip ms us).any (fun p => obs root p.1 != obs root p.2) then ⟨.tie, tags, "a written tree differs from the model's"⟩
+      else ⟨.pass, tags, ""⟩
+    | _, _, _, _, _, _, _, _ => bad "C05.cli fields"
   | _, _ => bad ("C05: unknown op " ++ op)
 
 end Gotree.Driver.C05
